@@ -65,6 +65,11 @@ class TPDomain(EvDomain):
         OPF = {'<': operator.lt, '<=': operator.le, '>': operator.gt, '>=': operator.ge, '==': operator.eq, '!=': operator.ne}
         if op in ('==', '!=') and isinstance(l, Sym) and isinstance(r, Sym) and {l.name, r.name} == {'m_pool.begin', 'm_pool.end'} and self.atom('pool_empty') is True:
             return op == '=='          # an empty pool: begin() == end(), no traversal is entered
+        # the elements of m_pool are the Thread objects start() created with `new` (the only insertion): never null
+        for a_, b_ in ((l, r), (r, l)):
+            if op in ('==', '!=') and isinstance(a_, Sym) and a_.name.startswith('m_pool.') and a_.name not in ('m_pool.begin', 'm_pool.end') and \
+                    ((isinstance(b_, Lin) and b_.is_const() and b_.c == 0) or (isinstance(b_, int) and not isinstance(b_, bool) and b_ == 0)):
+                return op == '!='
         ll, rl = as_lin(l), as_lin(r)
         if ll is None or rl is None: return None
         d = ll - rl
@@ -759,6 +764,7 @@ class TPAnalysis:
             res = run_paths(self.facts, f, dom)
             conds = loop_conds(self.facts, {g.name for g in self.facts.fns if g.d.get('class') == TP})
             for P, E in res:
+                if P.end in ('throw', 'noreturn'): continue          # a failed assert / a defensive throw: exception paths are not modelled (§15)
                 ws = [e for e in E if e.kind == 'write' and e.obj == 'm_isRunning']
                 row = f'(expiry timeout {timeout} 0)'
                 def once(rule, ok, inst, site_, why):
